@@ -37,7 +37,19 @@ type verifC24scene struct {
 	bin      []uint8 // bin of each universe peer (by construction of the addresses)
 	unreach  []bool  // reachability predicate per universe peer (true = unreachable)
 	ref      []bool  // reference: full node connected and not since disconnected
-	full     aurora.Model
+	// open: the p2p layer closed the connection to the peer WITHOUT telling the
+	// topology (no Disconnected notification) and no later event has settled the
+	// peer's state: the statement speaks about connection / disconnection /
+	// forced-disconnection events, a silent close is none of them, so whether the
+	// peer is still reported is left unconstrained until the next event on it
+	open []bool
+	full aurora.Model
+
+	threshold int
+	ownBoot   bool
+	actorBoot []bool         // per actor 0..3: the actor is a boot node
+	modes     []aurora.Model // per actor 0..3
+	protected []bool         // per actor 0..3: on the current protect list
 }
 
 func (sc *verifC24scene) index(a boson.Address) int {
@@ -49,22 +61,36 @@ func (sc *verifC24scene) index(a boson.Address) int {
 	return -1
 }
 
-// p2p service: only Disconnect is used. Like libp2p.Service.Disconnect it
-// returns ErrPeerNotFound when it has no connection to the peer, otherwise it
-// closes the connection and notifies the topology synchronously. Whether it
-// knows the peer is unconstrained.
+// p2p service: only Disconnect is used. Three behaviours of a p2p.Service:
+//  0. it has no connection to the peer: p2p.ErrPeerNotFound
+//     (libp2p.Service.Disconnect, peer registry miss);
+//  1. it closes the connection and notifies the topology synchronously
+//     (libp2p.Service.Disconnect with the topology registered as notifier);
+//  2. it closes the connection and returns nil WITHOUT calling the notifier back
+//     (libp2p.Service.Disconnect while no notifier is registered - s.notifier ==
+//     nil -, pkg/p2p/mock without a notifier; the p2p.Disconnecter interface promises no callback).
+//
+// Which one happens is unconstrained.
 type verifC24p2p struct {
 	p2p.Service // nil: every other method is unused
 }
 
 func (s *verifC24p2p) Disconnect(overlay boson.Address, reason string) error {
-	if !zzverif.Bool("p2p-has-connection") {
-		return p2p.ErrPeerNotFound
-	}
 	sc := verifC24env
-	sc.k.Disconnected(p2p.Peer{Address: overlay, Mode: sc.full}, reason)
-	if i := sc.index(overlay); i >= 0 {
-		sc.ref[i] = false
+	i := sc.index(overlay)
+	switch zzverif.Choose("p2p-disconnect", 3) {
+	case 0:
+		return p2p.ErrPeerNotFound
+	case 1:
+		sc.k.Disconnected(p2p.Peer{Address: overlay, Mode: sc.full}, reason)
+		if i >= 0 {
+			sc.ref[i] = false
+			sc.open[i] = false
+		}
+	default:
+		if i >= 0 {
+			sc.open[i] = true
+		}
 	}
 	return nil
 }
@@ -114,7 +140,9 @@ func verifC24randomPeer(k *Kad, bin uint8) (boson.Address, error) {
 // verifC24oversaturated: the bin of universe peer a is oversaturated, computed
 // from the reference set: the bin lies below the potential depth (recalcDepth on
 // the known peers: subject of C22, trusted here) and holds at least
-// overSaturationPeers connected reachable peers.
+// overSaturationPeers connected reachable peers (peers whose state is open, see
+// verifC24scene.open, are not counted: the oracle then says "oversaturated" less
+// often, which only weakens the admission assertion).
 func verifC24oversaturated(sc *verifC24scene, a int, threshold int) bool {
 	depth := recalcDepth(sc.k.knownPeers, boson.MaxPO, sc.k.peerFilter)
 	if sc.bin[a] >= depth {
@@ -122,7 +150,7 @@ func verifC24oversaturated(sc *verifC24scene, a int, threshold int) bool {
 	}
 	cnt := 0
 	for u := range sc.universe {
-		if sc.bin[u] == sc.bin[a] && sc.ref[u] && !sc.unreach[u] {
+		if sc.bin[u] == sc.bin[a] && sc.ref[u] && !sc.open[u] && !sc.unreach[u] {
 			cnt++
 		}
 	}
@@ -151,6 +179,9 @@ func verifC24check(sc *verifC24scene) {
 	})
 	zzverif.Assert(foreign == 0, "no unknown address reported as connected")
 	for i := range sc.universe {
+		if sc.open[i] {
+			continue
+		}
 		if sc.ref[i] {
 			zzverif.Assert(seen[i] == 1, "live full-node connection is reported as connected (once)")
 			zzverif.Assert(known[i], "connected peer is known")
@@ -179,7 +210,51 @@ func VerifC24_TwoBins() {
 	zzverif.Reach("C24-two-bins")
 }
 
+// VerifC24_ProtectList: the protect list is replaced several times (2 quick / 3
+// thorough; every time by an arbitrary subset of {X, Y}, as the multicast
+// service does when groups change) and THEN one of X, Y dials in (Connected) or
+// is submitted to the admission query (Pick) while bin 0 is one below / at
+// oversaturation. "Unprotected" in the admission clause means: not on the list
+// of the LATEST refresh - a peer that was on an earlier list and has since been
+// dropped is an ordinary peer again.
+func VerifC24_ProtectList() {
+	sc := verifC24setup(false)
+	refreshes := zzverif.Param("protect-refreshes", 2, 3)
+	for r := 0; r < refreshes; r++ {
+		var members []int
+		switch zzverif.Choose("protect-subset", 4) {
+		case 1:
+			members = []int{0}
+		case 2:
+			members = []int{1}
+		case 3:
+			members = []int{0, 1}
+		}
+		verifC24protect(sc, members)
+		verifC24check(sc)
+	}
+	a := zzverif.Choose("actor", 2)
+	if zzverif.Choose("inbound", 2) == 0 {
+		verifC24step(sc, a, 1) // Connected
+	} else {
+		verifC24step(sc, a, 5) // Pick
+	}
+	verifC24check(sc)
+	zzverif.Reach("C24-protect-list")
+}
+
 func verifC24run(steps int, actors []int, allowOwnBoot bool) {
+	sc := verifC24setup(allowOwnBoot)
+	for s := 0; s < steps; s++ {
+		a := actors[zzverif.Choose("actor", len(actors))]
+		verifC24step(sc, a, zzverif.Choose("op", 6))
+		verifC24check(sc)
+	}
+}
+
+// verifC24setup builds the Kad, the universe and the start state (through the
+// real Outbound) and checks the membership clauses on it.
+func verifC24setup(allowOwnBoot bool) *verifC24scene {
 	zzverif.Unwind(128)
 
 	// thresholds as kademlia.New derives them from Options.BinMaxPeers = 5
@@ -188,11 +263,10 @@ func verifC24run(steps int, actors []int, allowOwnBoot bool) {
 	saturationPeers = 2
 	quickSaturationPeers = 1
 	bootNodeOverSaturationPeers = 5
-	threshold := overSaturationPeers
 
 	base := boson.NewAddress([]byte{0, 0, 0, 0})
 	mk := func(b0, b3 byte) boson.Address { return boson.NewAddress([]byte{b0, 0, 0, b3}) }
-	sc := &verifC24scene{}
+	sc := &verifC24scene{threshold: overSaturationPeers}
 	// index:        0 X          1 Y          2 P1         3 Z          4 P2 ...
 	sc.universe = []boson.Address{mk(0x80, 5), mk(0x80, 6), mk(0x80, 1), mk(0x40, 3),
 		mk(0x80, 2), mk(0x80, 3), mk(0x80, 4), mk(0x40, 1), mk(0x40, 2), mk(0x20, 1), mk(0x80, 7)}
@@ -204,28 +278,29 @@ func verifC24run(steps int, actors []int, allowOwnBoot bool) {
 	sc.unreach = make([]bool, len(sc.universe))
 	sc.unreach[0] = zzverif.Bool("X-unreachable")
 	sc.ref = make([]bool, len(sc.universe))
+	sc.open = make([]bool, len(sc.universe))
 	sc.full = aurora.NewModel().SetMode(aurora.FullNode)
 
 	// own node mode: full node (quick tier) / full or boot node (thorough tier)
-	ownBoot := false
 	if allowOwnBoot {
-		ownBoot = zzverif.Bool("own-boot-node")
+		sc.ownBoot = zzverif.Bool("own-boot-node")
 	}
 	ownMode := aurora.NewModel().SetMode(aurora.FullNode)
-	if ownBoot {
+	if sc.ownBoot {
 		ownMode.SetMode(aurora.BootNode)
 	}
 	// mode of the actors X and Z (a peer does not change its mode); Y, P1 are full nodes
-	actorBoot := make([]bool, 4)
-	actorBoot[0] = zzverif.Bool("X-is-boot-node")
-	actorBoot[3] = zzverif.Bool("Z-is-boot-node")
-	modes := make([]aurora.Model, 4)
-	for i := range modes {
-		modes[i] = aurora.NewModel().SetMode(aurora.FullNode)
-		if actorBoot[i] {
-			modes[i].SetMode(aurora.BootNode)
+	sc.actorBoot = make([]bool, 4)
+	sc.actorBoot[0] = zzverif.Bool("X-is-boot-node")
+	sc.actorBoot[3] = zzverif.Bool("Z-is-boot-node")
+	sc.modes = make([]aurora.Model, 4)
+	for i := range sc.modes {
+		sc.modes[i] = aurora.NewModel().SetMode(aurora.FullNode)
+		if sc.actorBoot[i] {
+			sc.modes[i].SetMode(aurora.BootNode)
 		}
 	}
+	sc.protected = make([]bool, 4)
 
 	filter := func(a boson.Address) bool {
 		if i := sc.index(a); i >= 0 {
@@ -237,7 +312,7 @@ func verifC24run(steps int, actors []int, allowOwnBoot bool) {
 		base:           base,
 		p2p:            &verifC24p2p{},
 		addressBook:    &verifC24book{},
-		saturationFunc: binSaturated(threshold, isStaticPeer(nil)),
+		saturationFunc: binSaturated(sc.threshold, isStaticPeer(nil)),
 		connectedPeers: pslice.New(int(boson.MaxBins), base),
 		knownPeers:     pslice.New(int(boson.MaxBins), base),
 		manageC:        make(chan struct{}, 1),
@@ -268,60 +343,79 @@ func verifC24run(steps int, actors []int, allowOwnBoot bool) {
 		sc.ref[10] = true
 	}
 	verifC24check(sc)
+	return sc
+}
 
-	protected := make([]bool, 4)
+// verifC24protect replaces the protect list by the given actors (a fresh slice
+// per call, as pkg/multicast passes one).
+func verifC24protect(sc *verifC24scene, members []int) {
+	var list []boson.Address
+	for i := range sc.protected {
+		sc.protected[i] = false
+	}
+	for _, m := range members {
+		list = append(list, sc.universe[m])
+		sc.protected[m] = true
+	}
+	sc.k.RefreshProtectPeer(list)
+}
+
+// verifC24step delivers one event about actor a (an index 0..3 of the universe)
+// to the topology and updates the reference.
+func verifC24step(sc *verifC24scene, a int, op int) {
+	k := sc.k
 	ctx := context.Background()
-	for s := 0; s < steps; s++ {
-		a := actors[zzverif.Choose("actor", len(actors))]
-		addr := sc.universe[a]
-		switch zzverif.Choose("op", 6) {
-		case 0: // an outbound connection to the actor has been established
-			k.Outbound(p2p.Peer{Address: addr, Mode: modes[a]})
-			if !actorBoot[a] {
-				sc.ref[a] = true
-			}
-		case 1: // a full node dialed in (libp2p hands boot nodes to another container)
-			zzverif.Assume(!actorBoot[a])
-			force := zzverif.Bool("force")
-			overs := verifC24oversaturated(sc, a, threshold)
-			err := k.Connected(ctx, p2p.Peer{Address: addr, Mode: modes[a]}, force)
-			if err == nil {
-				sc.ref[a] = true
-				if !protected[a] && !force && !ownBoot {
-					zzverif.Assert(!overs, "unprotected inbound full node admitted only if its bin is not oversaturated")
-				}
-			} else {
-				// libp2p closes a refused connection, which notifies the topology
-				k.Disconnected(p2p.Peer{Address: addr, Mode: modes[a]}, "refused")
-				sc.ref[a] = false
-			}
-		case 2: // the connection to the actor was closed
-			k.Disconnected(p2p.Peer{Address: addr, Mode: modes[a]}, "closed")
-			sc.ref[a] = false
-		case 3: // forced disconnection (debug API); the p2p stub notifies Disconnected itself
-			if err := k.DisconnectForce(addr, "forced"); err == nil {
-				sc.ref[a] = false
-			}
-		case 4: // the protect list is replaced
-			var list []boson.Address
-			for i := range protected {
-				protected[i] = false
-			}
-			switch zzverif.Choose("protect-list", 3) {
-			case 1:
-				list = []boson.Address{addr}
-				protected[a] = true
-			case 2:
-				list = []boson.Address{sc.universe[0], sc.universe[1]}
-				protected[0], protected[1] = true, true
-			}
-			k.RefreshProtectPeer(list)
-		case 5: // admission query before the handshake completes
-			overs := verifC24oversaturated(sc, a, threshold)
-			if k.Pick(p2p.Peer{Address: addr, Mode: modes[a]}) && !protected[a] && !ownBoot {
-				zzverif.Assert(!overs, "unprotected peer picked only if its bin is not oversaturated")
-			}
+	addr := sc.universe[a]
+	switch op {
+	case 0: // an outbound connection to the actor has been established
+		k.Outbound(p2p.Peer{Address: addr, Mode: sc.modes[a]})
+		if !sc.actorBoot[a] {
+			sc.ref[a] = true
+			sc.open[a] = false
 		}
-		verifC24check(sc)
+	case 1: // a full node dialed in (libp2p hands boot nodes to another container)
+		zzverif.Assume(!sc.actorBoot[a])
+		force := zzverif.Bool("force")
+		overs := verifC24oversaturated(sc, a, sc.threshold)
+		err := k.Connected(ctx, p2p.Peer{Address: addr, Mode: sc.modes[a]}, force)
+		if err == nil {
+			sc.ref[a] = true
+			sc.open[a] = false
+			if !sc.protected[a] && !force && !sc.ownBoot {
+				zzverif.Assert(!overs, "unprotected inbound full node admitted only if its bin is not oversaturated")
+			}
+		} else {
+			// libp2p closes a refused connection, which notifies the topology
+			k.Disconnected(p2p.Peer{Address: addr, Mode: sc.modes[a]}, "refused")
+			sc.ref[a] = false
+			sc.open[a] = false
+		}
+	case 2: // the connection to the actor was closed
+		k.Disconnected(p2p.Peer{Address: addr, Mode: sc.modes[a]}, "closed")
+		sc.ref[a] = false
+		sc.open[a] = false
+	case 3: // forced disconnection (debug API)
+		// nil: the forced disconnection has happened, whatever the p2p layer did
+		// (notified synchronously or not). Error: either the p2p layer had no
+		// connection (nothing changed) or it closed the connection silently and a
+		// later step of DisconnectForce failed (state open, see the p2p stub).
+		if err := k.DisconnectForce(addr, "forced"); err == nil {
+			sc.ref[a] = false
+			sc.open[a] = false
+		}
+	case 4: // the protect list is replaced
+		switch zzverif.Choose("protect-list", 3) {
+		case 0:
+			verifC24protect(sc, nil)
+		case 1:
+			verifC24protect(sc, []int{a})
+		case 2:
+			verifC24protect(sc, []int{0, 1})
+		}
+	case 5: // admission query before the handshake completes
+		overs := verifC24oversaturated(sc, a, sc.threshold)
+		if k.Pick(p2p.Peer{Address: addr, Mode: sc.modes[a]}) && !sc.protected[a] && !sc.ownBoot {
+			zzverif.Assert(!overs, "unprotected peer picked only if its bin is not oversaturated")
+		}
 	}
 }
